@@ -49,7 +49,36 @@ def builderStep (bs : List Bool) (op : String) : Option (List Bool) :=
     | _, _, _ => none
   | "v", [n] => n.toNat?.map (fun n => bs ++ List.replicate n false)
   | "l", [b] => (parseBits b).map (fun b => bs ++ b)
+  | "w", [w, n] =>
+    match w.toNat?, n.toNat? with
+    | some w, some n => some (bs ++ (List.range n).map (fun i => w.testBit i))
+    | _, _ => none
+  | "b", [h, s, e] =>
+    match buf h, s.toNat?, e.toNat? with
+    | some (v, _), some s, some e => some (bs ++ bitsOf v s (e - s))
+    | _, _, _ => none
   | _, _ => none
+
+/-- specification of `NullBufferBuilder` (validity bits; `finish() = None` means all valid) -/
+def nbbStep (bs : List Bool) (op : String) : Option (List Bool) :=
+  let k := op.take 1 |>.toString
+  let f := (op.drop 1).toString.splitOn ":"
+  match k, f with
+  | "a", [b] => some (bs ++ [decide (b = "1")])
+  | "N", [n] => n.toNat?.map (fun n => bs ++ List.replicate n false)
+  | "V", [n] => n.toNat?.map (fun n => bs ++ List.replicate n true)
+  | "l", [b] => (parseBits b).map (fun b => bs ++ b)
+  | "p", [h, o, l] =>
+    match buf h, o.toNat?, l.toNat? with
+    | some (v, _), some o, some l => some (bs ++ bitsOf v o l)
+    | _, _, _ => none
+  | "t", [n] => n.toNat?.map (fun n => bs.take n)
+  | "s", [i, b] => i.toNat?.bind (fun i => if i < bs.length then some (bs.set i (decide (b = "1"))) else none)
+  | _, _ => none
+
+def nbbRun (ops : String) : Option (List Bool) :=
+  if ops = "-" then some [] else
+  (ops.splitOn ";").foldlM nbbStep []
 
 def builderRun (ops : String) : Option (List Bool) :=
   if ops = "-" then some [] else
@@ -154,6 +183,54 @@ def handle (toks : List String) : String :=
     | _, _, _ => "bad-op"
   | ["builder", ops] =>
     match builderRun ops with
+    | some bs => showBits bs
+    | none => "bad-op"
+  | ["bitslice", _var, l, lo, len] =>
+    match buf l, lo.toNat?, len.toNat? with
+    | some (lv, ln), some lo, some len =>
+      if lo + len > 8 * ln then "ERR:oob" else showBits (bitsOf lv lo len)
+    | _, _, _ => "bad-op"
+  | ["setnull", d, start, count] =>
+    match buf d, start.toNat?, count.toNat? with
+    | some (dv, dn), some start, some count =>
+      if start + count > 8 * dn then "ERR:oob" else
+      toHex (natToBytes dn (packBits ((List.range (8 * dn)).map (fun i =>
+        if start ≤ i ∧ i < start + count then false else dv.testBit i))))
+    | _, _, _ => "bad-op"
+  | ["setbit", d, i, v] =>
+    match buf d, i.toNat? with
+    | some (dv, dn), some i =>
+      if i ≥ 8 * dn then "ERR:oob" else
+      toHex (natToBytes dn (packBits ((List.range (8 * dn)).map (fun j =>
+        if j = i then decide (v = "1") else dv.testBit j))))
+    | _, _ => "bad-op"
+  | ["quat", len, parts] =>
+    match len.toNat?, (parts.splitOn ";").mapM (fun p =>
+        match p.splitOn ":" with
+        | [b, o] => (match buf b, o.toNat? with
+                     | some (v, n), some o => some (v, n, o)
+                     | _, _ => none)
+        | _ => none) with
+    | some len, some [a, b, c, d] =>
+      if [a, b, c, d].any (fun (m : Nat × Nat × Nat) => m.2.2 + len > 8 * m.2.1) then "ERR:oob" else
+      showBits ((List.range len).map (fun i =>
+        let x := a.1.testBit (a.2.2 + i); let y := b.1.testBit (b.2.2 + i)
+        let z := c.1.testBit (c.2.2 + i); let w := d.1.testBit (d.2.2 + i)
+        (((x || (z && w)) && (z || (x && y))) != w)))
+    | _, _ => "bad-op"
+  | ["nth", l, lo, len, n, back] =>
+    match buf l, lo.toNat?, len.toNat?, n.toNat? with
+    | some (lv, ln), some lo, some len, some n =>
+      if lo + len > 8 * ln then "ERR:oob" else
+      let bs := bitsOf lv lo len
+      let sh := fun (o : Option Bool) => match o with | some true => "1" | some false => "0" | none => "n"
+      if back = "1" then
+        let r := bs.reverse
+        s!"{sh r[n]?} {showBits (r.drop (n + 1)).reverse}"
+      else s!"{sh bs[n]?} {showBits (bs.drop (n + 1))}"
+    | _, _, _, _ => "bad-op"
+  | ["nbb", ops] =>
+    match nbbRun ops with
     | some bs => showBits bs
     | none => "bad-op"
   | ["assign", name, uniq, l, lo, r, ro, len] =>
